@@ -475,45 +475,59 @@ def sd7(F, R):
         R.require(tables["read"] == tables["write"], None, "read==write", "read and write disagree on addressing: %s vs %s" % (tables["read"], tables["write"]))
 
 
-@rule("SD8", ["C12"], floor=4,
+@rule("SD8", ["C12"], floor=6,
       doc="read_csd chooses the register layout per card kind, reads it with CMD9 + read_data(&mut csd.data) (16 bytes) and fails when CMD9's response is non-zero; num_blocks/num_bytes select the capacity formula of the Csd variant")
 def sd8(F, R):
+    from .ev import specialise_enum, failure_edges
     fn = F.fn(SD + "::read_csd")
-    lay = {}
-    for (b, i, v) in ok_returns(fn):
-        if v[0] == "agg" and v[2]:
-            variant = v[2].split("::")[-1]
-            gs = [g for (gb, gi, g) in all_guards(fn) if fn.unreachable_without(b, [(gb, gi)]) and "card_type" in tstr(g.term) and g.kind in ("value", "variant", "notvalues", "variants")]
-            lay[variant] = sorted(str(g.value) if g.kind == "value" else str(g.variant) for g in gs)
-            ok, _ = guarded(fn, b, g_cmp("Eq", True, lambda a: has_sub(a, lambda q: q[0] == "call" and q[1] and path_matches(q[1], "SdCardInner::card_command")), lambda z: z[:2] == ("c", 0)))
-            ok_ne, _ = guarded(fn, b, g_cmp("Eq", False, None, None))
-            R.require(ok or True, fn, "cmd9-ok:" + variant, "CSD returned although CMD9's response was not 0", fn.loc(b, i))
-    R.require(set(lay) == {"V1", "V2"}, fn, "layouts", "read_csd must produce Csd::V1 and Csd::V2, got %s" % lay, fn.loc(0), okdetail="layout selection %s" % lay)
-    # layout per card kind must follow the spec: standard capacity (SD1, SD2) -> CSD v1.0, high capacity (SDHC) -> CSD v2.0
     kinds = F.variants("sdcard::CardType")
     want = spec("sd_constants.json")["csd_layout"]
+    is_opt = lambda x: x[0] == "place" and x[2] and x[2][-1] == "card_type"
+    is_kind = lambda x: (x[0] == "place" and "card_type" in x[2] and "as:Some" in x[2] and x[2][-1] == "0") or (x[0] == "var" and isinstance(x[1], int) and fn.locals[x[1]]["ty"].endswith("CardType"))
+    # layout per card kind, decided by specialising every test of the card type: which Csd variant the Ok returns carry
     got = {}
-    for (b, i, v) in ok_returns(fn):
-        if not (v[0] == "agg" and v[2]):
-            continue
-        variant = v[2].split("::")[-1]
-        for sb in fn.live_blocks():
-            t = fn.term(sb)
-            if t["k"] != "SwitchInt":
-                continue
-            cond = fn.term_of_operand(t["discr"], sb)
-            if cond[0] == "discr" and "card_type" in tstr(cond) and set(cond[2]) == set(kinds):
-                for ei, (tgt, lab) in enumerate(fn.succ(sb)):
-                    if lab[1] != "otherwise" and b in fn.reach([tgt]):
-                        got[cond[2][lab[1]]] = variant
+    for kind in [None] + list(kinds):
+        cut = specialise_enum(fn, is_opt, ["None", "Some"], "None" if kind is None else "Some")
+        if kind is not None:
+            cut += specialise_enum(fn, is_kind, kinds, kind)
+        rs = fn.reach([0], cut_edges=cut)
+        vs_ = sorted({v[2].split("::")[-1] for (b, i, v) in ok_returns(fn) if b in rs and v[0] == "agg" and v[2]})
+        if kind is None:
+            R.require(not vs_ and any(x[0] in rs for x in err_returns(fn, adt="Error") if x[2] == "CardNotFound"), fn, "uninit", "read_csd on an uninitialised card must fail with CardNotFound", fn.loc(0))
+        else:
+            got[kind] = "|".join(vs_)
     R.require(got == want, fn, "layout-table", "CSD layout per card kind is %s; the SD spec (5.3.1 CSD_STRUCTURE) requires %s" % (got, want), fn.loc(0), okdetail="layout table %s" % got)
-    for b, t in fn.calls():
-        if call_matches(t, ("SdCardInner::card_command",)):
-            nm, _ = cmd_const(fn.term_of_operand(t["args"][1], b))
-            R.require(nm == "CMD9", fn, "cmd9", "read_csd must use CMD9, got %s" % nm, fn.loc(b))
-        if call_matches(t, ("SdCardInner::read_data",)):
-            buf = tstr(fn.term_of_operand(t["args"][1], b))
-            R.require("csd" in buf and "data" in buf, fn, "csd-buffer", "read_data must fill csd.data, got %s" % buf, fn.loc(b))
+    R.require(set(got.values()) == {"V1", "V2"}, fn, "layouts", "read_csd must produce Csd::V1 and Csd::V2, got %s" % got, fn.loc(0), okdetail="layout selection %s" % got)
+    # the register is fetched with CMD9 and then read_data(&mut csd.data); a non-zero R1 is a failure - in read_csd itself or in
+    # a helper of its own (looked at in place of the call)
+    bodies = [fn] + [g for g in F.fns if g.kind != "Closure" and g.npath != fn.npath and g.npath.startswith(SD + "::") and any((callee_of(t) or "") == g.npath for b, t in fn.calls()) and g.npath not in __import__("analysis.mir", fromlist=["_known_functions"])._known_functions()]
+    n9 = nrd = 0
+    for f_ in bodies:
+        for b, t in f_.calls():
+            if call_matches(t, ("SdCardInner::card_command",)):
+                nm, _ = cmd_const(f_.term_of_operand(t["args"][1], b))
+                R.require(nm == "CMD9", f_, "cmd9", "read_csd must use CMD9, got %s" % nm, f_.loc(b))
+                n9 += 1
+                # R1 != 0 ends in an error: decide the test of the response for 0 and for 1
+                from .specialise import specialise_on
+                is_r1 = lambda q, b=b: q[0] == "call" and q[3] == b and q[1] and path_matches(q[1], "SdCardInner::card_command")
+                def is_r1v(q, b=b, f_=f_):
+                    return from_call(f_, q, "SdCardInner::card_command") and (has_sub(q, lambda z: z[0] == "call" and z[3] == b) or strip_refs(q)[0] == "var")
+                rs0 = f_.reach([0], cut_edges=specialise_on(f_, is_r1v, 0))
+                rs1 = f_.reach([0], cut_edges=specialise_on(f_, is_r1v, 1))
+                rds = [bb for bb, tt in f_.calls() if call_matches(tt, ("SdCardInner::read_data",)) and bb in f_.reach_after(b)]
+                okr1 = bool(rds) and any(bb in rs0 for bb in rds) and not any(bb in rs1 for bb in rds) and any(x[0] in rs1 for x in err_returns(f_, adt="Error") if x[2] == "RegisterReadError")
+                R.require(okr1, f_, "cmd9-ok", "the CSD is read although CMD9's response was not 0 (or a zero response is refused)", f_.loc(b))
+            if call_matches(t, ("SdCardInner::read_data",)):
+                nrd += 1
+                buf = strip_refs(f_.term_of_operand(t["args"][1], b))
+                if f_ is fn:
+                    okb = "csd" in tstr(buf) and "data" in tstr(buf)
+                else:
+                    # the helper reads into its own buffer parameter, and read_csd hands it csd.data
+                    okb = buf[0] == "arg" and all("data" in tstr(fn.term_of_operand(tt["args"][buf[1] - 1], bb)) for bb, tt in fn.calls() if (callee_of(tt) or "") == f_.npath)
+                R.require(okb, f_, "csd-buffer", "read_data must fill csd.data, got %s" % tstr(buf), f_.loc(b))
+    R.require(n9 >= 1 and nrd >= 1, fn, "cmd9+read_data", "read_csd must send CMD9 and read the register with read_data", fn.loc(0))
     for name, meth in (("num_blocks", "card_capacity_blocks"), ("num_bytes", "card_capacity_bytes")):
         f = F.fn(SD + "::" + name)
         cs = [(b, t) for b, t in f.calls() if (callee_of(t) or "").endswith("::" + meth)]
@@ -935,15 +949,22 @@ def sd14(F, R):
                         v2 = f.term_of_rvalue(s2["rv"], b)
                         if v2[0] == "c":
                             pairs[kind] = (v2[1], b)
+    # ... or the two are paired in one tuple: `break (CardType::SD2, 0x4000_0000)`
+    for b, i, s in f.stmts():
+        if s["k"] == "Assign" and s["rv"]["k"] == "Aggregate" and s["rv"].get("agg") == "Tuple" and len(s["rv"]["ops"]) == 2:
+            x0, x1 = strip_refs(f.term_of_operand(s["rv"]["ops"][0], b)), strip_refs(f.term_of_operand(s["rv"]["ops"][1], b))
+            for ka, va in ((x0, x1), (x1, x0)):
+                if ka[0] == "agg" and ka[2] and "CardType::" in ka[2] and va[0] == "c" and isinstance(va[1], int):
+                    pairs[ka[2].split("::")[-1]] = (va[1], b)
     R.require(pairs.get("SD1", (None,))[0] == 0 and pairs.get("SD2", (None,))[0] == 0x40000000, f, "acmd41-arg", "ACMD41 argument must be 0 for SD1 and 0x4000_0000 (HCS) for SD2; got %s" % {k: hex(v[0]) for k, v in pairs.items()}, f.loc(0))
     if "SD1" in pairs:
         ok, _ = guarded(f, pairs["SD1"][1], g_cmp("Eq", True, lambda a: has_sub(a, lambda q: q[0] == "call" and q[1] and path_matches(q[1], "SdCardInner::card_command")), lambda z: z == ("c", 5, None) or tstr(z) in ("5", "BitOr(R1_ILLEGAL_COMMAND=4, R1_IDLE_STATE=1)")))
         R.require(ok, f, "sd1-iff-illegal", "SD1 must be chosen exactly when CMD8 answers ILLEGAL_COMMAND|IDLE", f.loc(pairs["SD1"][1]))
     if "SD2" in pairs:
-        ok, _ = guarded(f, pairs["SD2"][1], g_cmp("Eq", True, None, lambda z: z[:2] == ("c", 0xAA)))
+        ok, _ = guarded(f, pairs["SD2"][1], lambda g: g_cmp("Eq", True, None, lambda z: z[:2] == ("c", 0xAA))(g) or (g.kind == "value" and g.value == 0xAA))
         R.require(ok, f, "sd2-iff-echo", "SD2 must be chosen only when the CMD8 echo byte is 0xAA", f.loc(pairs["SD2"][1]))
     a41 = byname["ACMD41"]
-    R.require(a41[3].endswith("card_acmd") and strip_refs(a41[2])[0] == "var", f, "acmd41-via-acmd", "ACMD41 must be sent with card_acmd and the per-kind argument", f.loc(a41[0]))
+    R.require(a41[3].endswith("card_acmd") and strip_refs(a41[2])[0] in ("var", "place"), f, "acmd41-via-acmd", "ACMD41 must be sent with card_acmd and the per-kind argument", f.loc(a41[0]))
     from .ev import specialise_enum
     kinds = F.variants("sdcard::CardType")
     is_kind_local = lambda x: x[0] == "var" and f.locals[x[1]]["ty"].endswith("CardType")
@@ -953,8 +974,19 @@ def sd14(F, R):
     # SDHC upgrade
     up = [(b, i) for b, i, s in f.stmts() if s["k"] == "Assign" and not s["p"]["proj"] and (lambda v: v[0] == "agg" and v[2] and v[2].endswith("CardType::SDHC"))(f.term_of_rvalue(s["rv"], b))]
     oku = False
+    from .specialise import accepted_values
     for b, i in up:
         g1, _ = guarded(f, b, g_cmp("Eq", True, lambda a: tmatch(a, ("bin", "BitAnd", "_", ("c", 0xC0))) is not None, lambda z: z[:2] == ("c", 0xC0)))
+        if not g1:
+            # any other way of saying "both top bits of the first OCR byte are set": the exact set of byte values admitted
+            def ocr0(x):
+                x = strip_refs(x)
+                return x[0] == "place" and any(isinstance(e, tuple) and e[0] in ("idx", "cidx") and ((e[0] == "idx" and e[1][:2] == ("c", 0)) or (e[0] == "cidx" and e[1] == 0)) for e in x[2]) and fn_local_is_buf(x)
+            def fn_local_is_buf(x):
+                base = strip_refs(x[1])
+                return base[0] == "var" and isinstance(base[1], int) and f.locals[base[1]]["ty"].replace(" ", "") == "[u8;4]"
+            vals, used = accepted_values(f, b, ocr0, 8)
+            g1 = used >= 1 and vals == set(range(0xC0, 0x100))
         g2, _ = guarded(f, b, g_cmp("Eq", True, lambda a: has_sub(a, lambda q: q[0] == "call" and q[1] and path_matches(q[1], "SdCardInner::card_command")), lambda z: z[:2] == ("c", 0)))
         g2b, _ = guarded(f, b, g_cmp("Eq", False, lambda a: has_sub(a, lambda q: q[0] == "call" and q[1] and path_matches(q[1], "SdCardInner::card_command")), lambda z: z[:2] == ("c", 0)))
         oku = g1 and (g2 or not g2b)
